@@ -117,7 +117,8 @@ def pseudoOk (hs : List Header) (fl : HdrFlags) : Bool :=
 /-- `validate_outbound_headers` run to completion -/
 def validateOutbound (hs : List Header) (fl : HdrFlags) : Except Exc (List Header) :=
   let skip := fl.isResponse || fl.isTrailer
-  if hs.all teOk && hs.all connOk && pseudoOk hs fl
+  -- `_reject_empty_header_names` (fix: commit) comes first; every refusal is a ProtocolError
+  if hs.all (fun h => !h.name.bs.isEmpty) && hs.all teOk && hs.all connOk && pseudoOk hs fl
      && (skip || hostAuthorityOk hs) && (skip || hs.all pathOk)
   then .ok hs else .error protoErr
 
